@@ -30,6 +30,32 @@ TrialVerdict(c) ==
        ELSE IF ~c.reqok THEN "effect-structure"
        ELSE "ok"
 
+\* shape-agnostic structure of a trial drawn with a REAL generator: rows carry, per trait, the class id of the residual
+\* (value - genotypic value, equal residuals = equal id, id 0 = residual zero).  zenv/zrep/zerr[t]: that variance
+\* component of trait t was requested as exactly 0.
+StructVerdict(c) ==
+    LET N == c.n * SumTo(c.nrep, Len(c.nrep))
+        T == 1..Len(c.zerr)
+        X(p) == ExpectedRecord(c.n, c.nrep, p)
+    IN IF c.err # "none" THEN "exception-on-valid-input"
+       ELSE IF Len(c.rows) # N THEN "record-count"
+       ELSE IF \E p \in 1..N : c.rows[p][1] # c.name[X(p)[1]] \/ c.rows[p][2] # c.grp[X(p)[1]] \/ c.rows[p][3] # X(p)[2] \/ c.rows[p][4] # X(p)[3]
+            THEN "record-labels-or-layout"
+       ELSE IF \E t \in T : c.zerr[t] /\ \E p, q \in 1..N : X(p)[2] = X(q)[2] /\ X(p)[3] = X(q)[3] /\ c.rows[p][5][t] # c.rows[q][5][t]
+            THEN "plot-error-present-although-its-variance-is-zero"
+       ELSE IF \E t \in T : c.zerr[t] /\ c.zrep[t] /\ \E p, q \in 1..N : X(p)[2] = X(q)[2] /\ c.rows[p][5][t] # c.rows[q][5][t]
+            THEN "replicate-effect-present-although-its-variance-is-zero"
+       ELSE IF \E t \in T : c.zerr[t] /\ c.zrep[t] /\ c.zenv[t] /\ \E p \in 1..N : c.rows[p][5][t] # 0
+            THEN "environment-effect-present-although-its-variance-is-zero"
+       \* a positive error variance makes equal residuals inside a block a null event (n >= 2 plots)
+       ELSE IF \E t \in T : ~c.zerr[t] /\ \E p, q \in 1..N : p # q /\ X(p)[2] = X(q)[2] /\ X(p)[3] = X(q)[3] /\ c.rows[p][5][t] = c.rows[q][5][t]
+            THEN "plot-error-missing-although-its-variance-is-positive"
+       ELSE IF \E t \in T : c.zerr[t] /\ ~c.zrep[t] /\ \E p, q \in 1..N : X(p)[2] = X(q)[2] /\ X(p)[3] # X(q)[3] /\ c.rows[p][5][t] = c.rows[q][5][t]
+            THEN "replicate-effect-missing-although-its-variance-is-positive"
+       ELSE IF \E t \in T : c.zerr[t] /\ c.zrep[t] /\ ~c.zenv[t] /\ \E p, q \in 1..N : X(p)[2] # X(q)[2] /\ c.rows[p][5][t] = c.rows[q][5][t]
+            THEN "environment-effect-missing-although-its-variance-is-positive"
+       ELSE "ok"
+
 Rows(c, id) == {p \in 1..Len(c.obs) : c.obs[p][1] = id}
 MeanVerdict(c) ==
     LET T == 1..Len(c.obs[1][2]) IN
@@ -52,6 +78,7 @@ TInit == i \in 1..Len(Cases) /\ n = 0 /\ nrep = <<>> /\ e = 0 /\ k = 0 /\ recs =
 TSpec == TInit /\ [][UNCHANGED tvars]_tvars
 Report == PrintT(<<"CASE", Cases[i].id,
                    CASE Cases[i].kind = "trial" -> TrialVerdict(Cases[i])
+                     [] Cases[i].kind = "struct" -> StructVerdict(Cases[i])
                      [] Cases[i].kind = "meanbv" -> MeanVerdict(Cases[i])
                      [] OTHER -> H2Verdict(Cases[i])>>)
 ==============================================================================
